@@ -1,4 +1,5 @@
 import json
+import zlib
 
 from inspect import getmodule
 from collections import abc
@@ -217,9 +218,23 @@ class Experiment:
     def _drop_torn_tail(result_file:str) -> None:
         #A killed experiment can leave a final record that was only partly written (or that is
         #missing its newline). We remove/terminate it so we can restore and then append cleanly.
-        if ".gz" in result_file: return
-
         with open(result_file,'rb+') as f:
+
+            if ".gz" in result_file:
+                #each record is written as its own gzip member, we only keep the complete members
+                good,member = 0,zlib.decompressobj(31)
+                for chunk in iter(lambda: f.read(4096), b''):
+                    try:
+                        member.decompress(chunk)
+                    except zlib.error:
+                        break
+                    if member.eof:
+                        good = f.tell()-len(member.unused_data)
+                        f.seek(good)
+                        member = zlib.decompressobj(31)
+                f.truncate(good)
+                return
+
             data = f.read()
             tail = data[data.rfind(b'\n')+1:]
             if not tail.strip(): return
